@@ -1065,3 +1065,30 @@ m('N5-autoentry-generic-sequence-before-namedtuple', 'C04', 'N5', 'AutoEntry/spe
             path_entry_type = DataclassEntry
         elif issubclass(type, Mapping):
             path_entry_type = MappingEntry""")
+m('P5-prefix-rejects-equal-namespaces', 'C07', 'P5', 'PyTreeSpec::IsPrefix/compatibility', 'src/treespec/richcomparison.cpp',
+  """    if (!m_namespace.empty() && !other.m_namespace.empty() && m_namespace != other.m_namespace)
+        [[likely]] {
+        return false;
+    }
+    if (GetNumNodes() > other.GetNumNodes()) [[likely]] {""",
+  """    if (!m_namespace.empty() && !other.m_namespace.empty() && m_namespace == other.m_namespace)
+        [[likely]] {
+        return false;
+    }
+    if (GetNumNodes() > other.GetNumNodes()) [[likely]] {""")
+m('P5-equality-ignores-the-wildcard-of-the-other-side', 'C06', 'P5', 'PyTreeSpec::EqualTo/compatibility', 'src/treespec/richcomparison.cpp',
+  """    if (!m_namespace.empty() && !other.m_namespace.empty() && m_namespace != other.m_namespace)
+        [[likely]] {
+        return false;
+    }
+    if (GetNumNodes() != other.GetNumNodes()""",
+  """    if (!m_namespace.empty() && m_namespace != other.m_namespace)
+        [[likely]] {
+        return false;
+    }
+    if (GetNumNodes() != other.GetNumNodes()""")
+m('D4-by-class-lookup-asks-about-the-global-mode', 'C13', 'D4', 'registry.get/mode-of-the-asked-namespace', 'optree/registry.py',
+  """    if _C.is_dict_insertion_ordered(namespace):
+        if cls is dict:""",
+  """    if _C.is_dict_insertion_ordered(''):
+        if cls is dict:""")
